@@ -6,9 +6,12 @@
                         remove_non_adjacent_bs, copy, copy(freeze_parameters=True) / _freeze_params
    transcribed loop by loop as executable functions on [list comp].  No proofs here.
 
-   [compress_gen true] is compress_mode_swaps WITH the repair of finding N5 (the inner scan
-   skips entries that were already merged: "if i + 1 + j in to_skip: continue");
-   [compress_gen false] is the function as it stood on the pinned tree. *)
+   [compress_gen true] is compress_mode_swaps as it stands after the repair of finding N5
+   (/repo commit 2dbd354: the inner scan skips entries that were already merged,
+   "if i + 1 + j in to_skip: continue"); [compress_gen false] is the function as it stood on
+   the pinned tree (kept for the refutation theorems, not run by the check).
+   Circuit.compress_mode_swaps / remove_non_adjacent_bs no longer deep-copy the spec (finding
+   N13, commit dab2a8f): in this functional model that was always the case. *)
 From Coq Require Import ZArith List Bool Arith Lia.
 From LW Require Import Base.Sx Base.Num Base.Sums Base.Mat Model.Circuit Model.World.
 Import ListNotations.
